@@ -182,8 +182,22 @@ def extract_ionq(repo):
     values = {"gate": "GATE_JSON_IONQ[gate.name]", "targets": "gate.target", "controls": "gate.control",
               "rotation": "gate.parameter"}
     t["wbranches"] = []
+    t["need_control"] = []
+    seen = set()
     for test, b in chain:
+        # optional refusing branch:  elif gate.name in {...} and not gate.control: raise ValueError(...)
+        if isinstance(test, ast.BoolOp):
+            if not (isinstance(test.op, ast.And) and len(test.values) == 2
+                    and _dump(test.values[1]) == _dump(_expr("not gate.control"))):
+                raise TranslateError("ionq writer: unexpected test `%s`" % ast.unparse(test)[:120])
+            names = _in_set(test.values[0], "gate.name", "ionq writer")
+            _raises_value_error(b, "ionq writer refusing branch")
+            if seen & set(names):
+                raise TranslateError("ionq writer: the refusing branch is shadowed by an earlier branch for %s" % sorted(seen & set(names)))
+            t["need_control"].extend(names)
+            continue
         names = _in_set(test, "gate.name", "ionq writer")
+        seen |= set(names)
         if not (len(b) == 1 and isinstance(b[0], ast.Expr) and isinstance(b[0].value, ast.Call)
                 and _dump(b[0].value.func) == _dump(_expr("json_gates.append")) and len(b[0].value.args) == 1
                 and not b[0].value.keywords and isinstance(b[0].value.args[0], ast.Dict)):
@@ -345,10 +359,17 @@ def extract_projectq(repo):
         raise TranslateError("translate_c_from_projectq: expected at least 6 statements, found %d" % len(body))
     _same(body[0], "GATE_PROJECTQ = get_projectq_gates()", "projectq reader")
     _same(body[1], "gate_mapping = {v: k for k, v in GATE_PROJECTQ.items()}", "projectq reader")
-    # any number of   projectq_str = re.sub(r'<literal>(.*)\n', '', projectq_str)   statements
-    n_sub = len(body) - 6
-    t["ignored"] = [_ignored_literal(b, "projectq reader") for b in body[2:2 + n_sub]]
-    body = body[:2] + [None, None] + body[2 + n_sub:]
+    # optional   n_allocated = max([int(index) + 1 for index in re.findall(r'Allocate \| Qureg\[(\d+)\]', projectq_str)], default=0)
+    # (before the deletions), then any number of   projectq_str = re.sub(r'<literal>(.*)\n', '', projectq_str)   statements
+    pre = body[2:len(body) - 4]
+    n_alloc_src = ("n_allocated = max([int(index) + 1 for index in "
+                   "re.findall(r'Allocate \\| Qureg\\[(\\d+)\\]', projectq_str)], default=0)")
+    t["restores_width"] = False
+    if pre and _dump(pre[0]) == _dump(_stmt(n_alloc_src)):
+        t["restores_width"] = True
+        pre = pre[1:]
+    t["ignored"] = [_ignored_literal(b, "projectq reader") for b in pre]
+    body = body[:2] + [None, None] + body[len(body) - 4:]
     _same(body[4], 'projectq_gates = [instruction for instruction in projectq_str.split("\\n") if instruction]', "projectq reader")
     _same(body[5], "abs_circ = Circuit()", "projectq reader")
     loop = body[6]
@@ -356,7 +377,11 @@ def extract_projectq(repo):
             and isinstance(loop.target, ast.Name) and loop.target.id == "projectq_gate"
             and _dump(loop.iter) == _dump(_expr("projectq_gates"))):
         raise TranslateError("projectq reader: unexpected instruction loop")
-    _same(body[7], "return abs_circ", "projectq reader")
+    if t["restores_width"]:
+        _same(body[7], "return abs_circ if n_allocated <= abs_circ.width else Circuit(abs_circ._gates, n_qubits=n_allocated)",
+              "projectq reader")
+    else:
+        _same(body[7], "return abs_circ", "projectq reader")
     lb = loop.body
     _same(lb[0], "gate_name = re.split(r' \\| |\\(', projectq_gate)[0]", "projectq reader")
     _same(lb[1], "qubit_indices = [int(index) for index in re.findall(r'Qureg\\[(\\d+)\\]', projectq_gate)]", "projectq reader")
@@ -375,8 +400,46 @@ def extract_projectq(repo):
     return t
 
 
+REPR_COND = {False: "self.__getattribute__(attr) or isinstance(self.__getattribute__(attr), int)",
+             True: "self.__getattribute__(attr) is not None"}
+
+
+def extract_repr(repo):
+    """Gate.__repr__: name always; target / control under one of the two recognised conditions; parameter
+    unless it is ""; is_variational only when True."""
+    tree = parse(repo / "tangelo/linq/gate.py")
+    fn = find_def(tree, "__repr__", cls="Gate")
+    body = _body_no_doc(fn)
+    if len(body) != 6:
+        raise TranslateError("Gate.__repr__: expected 6 statements, found %d" % len(body))
+    _same(body[0], "mystr = f\"Gate(name='{self.name}'\"", "Gate.__repr__")
+    loop = body[1]
+    if not (isinstance(loop, ast.For) and not loop.orelse and len(loop.body) == 1 and isinstance(loop.target, ast.Name)
+            and loop.target.id == "attr" and _dump(loop.iter) == _dump(_expr('["target", "control"]'))
+            and isinstance(loop.body[0], ast.If) and not loop.body[0].orelse and len(loop.body[0].body) == 1):
+        raise TranslateError("Gate.__repr__: unexpected target/control loop")
+    _same(loop.body[0].body[0], 'mystr += f", {attr}={self.__getattribute__(attr)}"', "Gate.__repr__")
+    cond = _dump(loop.body[0].test)
+    flags = [k for k, v in REPR_COND.items() if _dump(_expr(v)) == cond]
+    if len(flags) != 1:
+        raise TranslateError("Gate.__repr__: unexpected printing condition `%s`" % ast.unparse(loop.body[0].test)[:120])
+    par = body[2]
+    if not (isinstance(par, ast.If) and not par.orelse
+            and _dump(par.test) == _dump(_expr('self.__getattribute__("parameter") != ""')) and len(par.body) == 2):
+        raise TranslateError("Gate.__repr__: unexpected parameter block")
+    _same(par.body[0], "parameter = self.__getattribute__('parameter')", "Gate.__repr__")
+    old = 'mystr += f", parameter=\'{parameter}\'" if isinstance(parameter, str) else f", parameter={parameter}"'
+    new = ('if isinstance(parameter, Symbol):\n    mystr += f", parameter=sympy.{srepr(parameter)}"\nelse:\n    ' + old)
+    if _dump(par.body[1]) not in (_dump(_stmt(old)), _dump(_stmt(new))):
+        raise TranslateError("Gate.__repr__: unexpected parameter printing `%s`" % ast.unparse(par.body[1])[:160])
+    _same(body[3], 'if self.is_variational:\n    mystr += ", is_variational=True"', "Gate.__repr__")
+    _same(body[4], 'mystr += ")"', "Gate.__repr__")
+    _same(body[5], "return mystr", "Gate.__repr__")
+    return {"when_not_none": flags[0], "symbol_srepr": _dump(par.body[1]) == _dump(_stmt(new))}
+
+
 def extract(repo):
-    return {"ionq": extract_ionq(repo), "projectq": extract_projectq(repo)}
+    return {"ionq": extract_ionq(repo), "projectq": extract_projectq(repo), "repr": extract_repr(repo)}
 
 
 # ----------------------------------------------------------------------------------------- emission
@@ -398,6 +461,7 @@ def emit(t):
          "  iq_names := %s;" % _pairs(i["names"]),
          "  iq_wbranches := [%s];" % ";\n                   ".join(
              "WBranch %s %s %s" % (coq_string_list(b["names"]), _b(b["controls"]), _b(b["rotation"])) for b in i["wbranches"]),
+         "  iq_w_need_control := %s;" % coq_string_list(sorted(set(i["need_control"]))),
          '  iq_rename_from := "%s";' % i["rename_from"],
          '  iq_rename_to := "%s";' % i["rename_to"],
          "  iq_rbranches := [%s]" % ";\n                   ".join(
@@ -408,7 +472,10 @@ def emit(t):
          "  pq_names := %s;" % _pairs(p["names"]),
          "  pq_wbranches := [%s];" % "; ".join("(%s, %s)" % (coq_string_list(b["names"]), b["shape"]) for b in p["wbranches"]),
          "  pq_rbranches := [%s];" % "; ".join("(%s, %s)" % (coq_string_list(b["names"]), b["shape"]) for b in p["rbranches"]),
+         "  pq_restores_width := %s;" % _b(p["restores_width"]),
          "  pq_w_single_ctrl := %s;" % coq_string_list(p["single_ctrl"]),
          "  pq_ignored := %s" % coq_string_list(p["ignored"]),
-         "|}."]
+         "|}.", "",
+         "(* Gate.__repr__ of tangelo/linq/gate.py *)",
+         "Definition repr_tbl : repr_tables := {| rp_when_not_none := %s |}." % _b(t["repr"]["when_not_none"])]
     return "\n".join(L) + "\n"
